@@ -17,6 +17,7 @@ import (
 	_ "embed"
 	"fmt"
 	"go/ast"
+	"go/constant"
 	"go/token"
 	"go/types"
 	"sort"
@@ -74,17 +75,17 @@ var propAnchorFiles = map[string][]string{
 // behaviour runs through although no call from the anchor files reaches them (the other side of an
 // agreement the property states), one line of reason each.
 var propExtraFiles = map[string][]string{
-	"C01": {"selectivecar.go"},                                                         // SelectiveCar Write/Dump is the root module's other writer
-	"C02": {"cmd/car/lib/verify.go", "v2/internal/store/resume.go"},                    // `car verify` is the command-line scanning reader; Resume is the scan that decides what a reopened store serves
-	"C10": {"cmd/car/index.go"},                                                        // `car index` is the command-line wrap (and its --version 1 the extraction)
-	"C03": {"v2/internal/store/resume.go", "v2/writer.go"},                             // Resume rebuilds the index from the payload: the third index-building walk
-	"C09": {"v2/blockstore/readonly.go", "v2/storage/storage.go"},                      // the open paths hand the caller's limits to the parsers
-	"C14": {"v2/index_gen.go"},                                                         // the offsets BlockReader reports are stated to agree with the ones index generation records
-	"C11": {"v2/index_gen.go", "v2/selective.go"},                                      // the regenerated index is held against the serialized one; the selective writer serializes the index it built behind its own padding
-	"C13": {"v2/car.go"},                                                               // Inspect relies on the header validation of Header.ReadFrom
-	"C12": {"v2/internal/io/offset_write_seeker.go", "v2/internal/carv1/util/util.go"}, // what a resumed session writes goes through these
-	"C16": {"v2/storage/deferred/deferredcarwriter.go"},                                // the deferred writer is the third writable store: a Put that failed through it must be repeatable
-	"C05": {"cmd/car/get.go"},                                                          // `car get-dag` is the command-line writing session: what it leaves behind is a finalized output of the library
+	"C01": {"selectivecar.go"},                                                                // SelectiveCar Write/Dump is the root module's other writer
+	"C02": {"cmd/car/lib/verify.go", "v2/internal/store/resume.go"},                           // `car verify` is the command-line scanning reader; Resume is the scan that decides what a reopened store serves
+	"C10": {"cmd/car/index.go"},                                                               // `car index` is the command-line wrap (and its --version 1 the extraction)
+	"C03": {"v2/internal/store/resume.go", "v2/writer.go", "v2/internal/store/indexcheck.go"}, // Resume rebuilds the index from the payload: the third index-building walk; ShouldPut decides which sections the index a finalized file carries gets
+	"C09": {"v2/blockstore/readonly.go", "v2/storage/storage.go"},                             // the open paths hand the caller's limits to the parsers
+	"C14": {"v2/index_gen.go"},                                                                // the offsets BlockReader reports are stated to agree with the ones index generation records
+	"C11": {"v2/index_gen.go", "v2/selective.go"},                                             // the regenerated index is held against the serialized one; the selective writer serializes the index it built behind its own padding
+	"C13": {"v2/car.go"},                                                                      // Inspect relies on the header validation of Header.ReadFrom
+	"C12": {"v2/internal/io/offset_write_seeker.go", "v2/internal/carv1/util/util.go"},        // what a resumed session writes goes through these
+	"C16": {"v2/storage/deferred/deferredcarwriter.go"},                                       // the deferred writer is the third writable store: a Put that failed through it must be repeatable
+	"C05": {"cmd/car/get.go"},                                                                 // `car get-dag` is the command-line writing session: what it leaves behind is a finalized output of the library
 }
 
 type pitfall struct {
@@ -121,6 +122,8 @@ var pitfallWhy = map[string]string{
 	"factory-closure-shared-state": "a function returns a closure that changes a local variable of the function that made it: every call of the closure — every writer it opens, from every goroutine — works on that one variable, which nothing locks",
 	"internal-slice-returned":      "an exported method returns a slice or map kept in a field of its receiver, not a copy and not a freshly decoded value: the caller and the object now share one backing array — whatever the caller does to the result, or did to the slice the field was set from, changes what the next call answers",
 	"short-read-tolerated":         "the number of bytes a Read or ReadAt delivered is dropped while io.EOF is treated differently from its other errors: both may deliver fewer bytes than asked together with io.EOF, and whoever lets that io.EOF pass must look at the count — or the rest of the buffer, still zero, goes out as data",
+	"error-text-only":              "the error a call returned is put into fmt.Errorf with %v or %s, not %w: what goes up is a new error that only quotes the text — errors.Is and == no longer find the sentinel (the too-large error, io.ErrUnexpectedEOF) that the same input yields through the sibling readers",
+	"first-item-memo":              "a callback that is called once per item fills a variable of the enclosing function the first time it runs (`if v == nil { v = f(item) }`) from something that belongs to the item, and uses it for every later item: right as long as all items agree in that respect (one digest width, one codec), wrong for the rest",
 	"bit-position-as-mask":         "a constant that numbers a bit (it is a shift count wherever else it is used) stands where a mask belongs: `x &^ pos` clears the low bits that spell the number, not bit number pos, and the test that follows accepts or refuses by the wrong bits",
 	"process-state-changed":        "a library function changes a property of the whole process — the working directory, an environment variable, the umask — to serve one call: every relative path another goroutine or a later call resolves (an output directory given relatively, the next archive to open) now resolves somewhere else, and the change outlives the call",
 	"map-presence-by-value":        "whether a key is in a map is decided from the value looked up (its length, nil-ness or zero-ness) instead of the comma-ok result: a key that is present with an empty value — the block of an empty file, an empty list of offsets — counts as absent",
@@ -717,6 +720,15 @@ func ssaPitfalls(c *Ctx) []pitfall {
 								addS("sentinel-wrapped", s, x.Pos(), s+" passed to fmt.Errorf")
 							}
 						}
+						if k, ok := cc.Args[0].(*ssa.Const); ok && k.Value != nil && k.Value.Kind() == constant.String && !strings.Contains(constant.StringVal(k.Value), "%w") {
+							for _, a := range variadicArgs(cc) {
+								if e := errorOperand(a); e != nil {
+									if name := errorSourceName(c, e); name != "" {
+										addS("error-text-only", name, x.Pos(), "the error of "+name+" goes into fmt.Errorf without %w")
+									}
+								}
+							}
+						}
 					}
 					if funcIs(f, "errors", "", "New") && isAdapterMethod {
 						addS("adapter-constructs-error", "errors.New", x.Pos(), "errors.New in "+g.Name())
@@ -762,6 +774,10 @@ func ssaPitfalls(c *Ctx) []pitfall {
 					sig := x.Common().Signature()
 					if sig != nil && sig.Results().Len() > 0 && types.Identical(sig.Results().At(sig.Results().Len()-1).Type(), errT) {
 						addS("deferred-error-dropped", calleeName(c, x.Common()), x.Pos(), "defer "+calleeName(c, x.Common()))
+					}
+				case *ssa.Store:
+					if fv, ok := x.Addr.(*ssa.FreeVar); ok && g.Parent() != nil && len(g.Params) > 0 && dependsOnParam(x.Val, g, 0) && underFirstTimeGuard(g, fv, x.Block()) {
+						addS("first-item-memo", fv.Name(), x.Pos(), fv.Name()+" is filled on the first call from the callback's own arguments")
 					}
 				case *ssa.Return:
 					if g.Parent() == nil && g.Signature.Recv() != nil && len(g.Params) > 0 && token.IsExported(g.Name()) {
@@ -2013,4 +2029,138 @@ func comparedWithEOF(e ssa.Value) bool {
 		return false
 	}
 	return walk(e, 0)
+}
+
+// errorOperand: the error-typed value behind an argument boxed for a variadic ...any.
+func errorOperand(v ssa.Value) ssa.Value {
+	errT := types.Universe.Lookup("error").Type()
+	for i := 0; i < 3; i++ {
+		if types.Identical(v.Type(), errT) {
+			return v
+		}
+		switch x := v.(type) {
+		case *ssa.ChangeInterface:
+			v = x.X
+		case *ssa.MakeInterface:
+			v = x.X
+		default:
+			return nil
+		}
+	}
+	return nil
+}
+
+// errorSourceName: the call whose error result the value is (directly, or through one variable).
+func errorSourceName(c *Ctx, e ssa.Value) string {
+	seen := map[ssa.Value]bool{}
+	var walk func(v ssa.Value, depth int) string
+	walk = func(v ssa.Value, depth int) string {
+		if v == nil || seen[v] || depth > 4 {
+			return ""
+		}
+		seen[v] = true
+		switch x := v.(type) {
+		case *ssa.Extract:
+			if call, ok := x.Tuple.(*ssa.Call); ok {
+				return calleeName(c, call.Common())
+			}
+		case *ssa.Call:
+			return calleeName(c, x.Common())
+		case *ssa.Phi:
+			for _, ed := range x.Edges {
+				if n := walk(ed, depth+1); n != "" {
+					return n
+				}
+			}
+		case *ssa.UnOp:
+			if al, ok := x.X.(*ssa.Alloc); ok && x.Op == token.MUL && al.Referrers() != nil {
+				for _, ref := range *al.Referrers() {
+					if st, ok := ref.(*ssa.Store); ok && st.Addr == ssa.Value(al) {
+						if n := walk(st.Val, depth+1); n != "" {
+							return n
+						}
+					}
+				}
+			}
+		}
+		return ""
+	}
+	return walk(e, 0)
+}
+
+// dependsOnParam: the value is computed from a parameter of g (not from its free variables alone).
+func dependsOnParam(v ssa.Value, g *ssa.Function, depth int) bool {
+	if depth > 8 || v == nil {
+		return false
+	}
+	switch x := v.(type) {
+	case *ssa.Parameter:
+		return x.Parent() == g
+	case *ssa.Const, *ssa.FreeVar, *ssa.Global, *ssa.Function, *ssa.Builtin:
+		return false
+	case ssa.Instruction:
+		for _, op := range x.Operands(nil) {
+			if *op != nil && dependsOnParam(*op, g, depth+1) {
+				return true
+			}
+		}
+	}
+	return false
+}
+
+// underFirstTimeGuard: the block is reached only through the "still nil / still zero" outcome of
+// a test of the captured variable itself.
+func underFirstTimeGuard(g *ssa.Function, fv *ssa.FreeVar, at *ssa.BasicBlock) bool {
+	isLoadOfFv := func(v ssa.Value) bool {
+		if c, ok := v.(*ssa.Call); ok {
+			if b, ok := c.Common().Value.(*ssa.Builtin); ok && b.Name() == "len" && len(c.Common().Args) == 1 {
+				v = c.Common().Args[0]
+			}
+		}
+		u, ok := v.(*ssa.UnOp)
+		return ok && u.Op == token.MUL && u.X == ssa.Value(fv)
+	}
+	isZero := func(v ssa.Value) bool {
+		k, ok := v.(*ssa.Const)
+		if !ok {
+			return false
+		}
+		if k.Value == nil {
+			return true
+		}
+		switch k.Value.Kind() {
+		case constant.Int:
+			n, ok := constant.Int64Val(k.Value)
+			return ok && n == 0
+		case constant.Bool:
+			return !constant.BoolVal(k.Value)
+		case constant.String:
+			return constant.StringVal(k.Value) == ""
+		}
+		return false
+	}
+	for _, b := range g.Blocks {
+		if len(b.Instrs) == 0 {
+			continue
+		}
+		iff, ok := b.Instrs[len(b.Instrs)-1].(*ssa.If)
+		if !ok {
+			continue
+		}
+		cmp, ok := iff.Cond.(*ssa.BinOp)
+		if !ok || (cmp.Op != token.EQL && cmp.Op != token.NEQ) {
+			continue
+		}
+		if !(isLoadOfFv(cmp.X) && isZero(cmp.Y) || isLoadOfFv(cmp.Y) && isZero(cmp.X)) {
+			continue
+		}
+		first := b.Succs[0]
+		if cmp.Op == token.NEQ {
+			first = b.Succs[1]
+		}
+		if len(first.Preds) == 1 && (first == at || first.Dominates(at)) {
+			return true
+		}
+	}
+	return false
 }
